@@ -1114,9 +1114,17 @@ pub(crate) fn interpret_isodatetime_offset(
 
     // 2. Let isoDateTime be CombineISODateAndTimeRecord(isoDate, time).
     // TODO: Deal with offsetBehavior == wall.
-    match (is_exact, offset_nanos) {
+    // An exact designator (`Z`) carries no offset of its own: the date-time is already in UTC.
+    let exact_offset = if is_exact {
+        Some(offset_nanos.unwrap_or(0))
+    } else if offset_option == OffsetDisambiguation::Use {
+        offset_nanos
+    } else {
+        None
+    };
+    match (exact_offset, offset_nanos) {
         // 4. If offsetBehaviour is exact, or offsetBehaviour is option and offsetOption is use, then
-        (true, Some(offset)) if offset_option == OffsetDisambiguation::Use => {
+        (Some(offset), _) => {
             // a. Let balanced be BalanceISODateTime(isoDate.[[Year]], isoDate.[[Month]],
             // isoDate.[[Day]], time.[[Hour]], time.[[Minute]], time.[[Second]], time.[[Millisecond]],
             // time.[[Microsecond]], time.[[Nanosecond]] - offsetNanoseconds).
